@@ -407,6 +407,10 @@ def run(repo, rep):
             if isinstance(s_, ast.Delete) and any(DC in src(t) for t in s_.targets):
                 hit = True
             if hit:
+                # a private helper that only set_default_config reaches (through private helpers) acts for it
+                from . import shared_state as _SS
+                if _SS.owners_of(repo, f, {sdc.qualname}) <= {sdc.qualname}:
+                    continue
                 n += 1
                 rep.fail('C18.c', '%s:writes-default-config' % f.qualname, '%s:%d' % (m.relpath, s_.lineno),
                          '%s writes the default configuration; only set_default_config may' % f.qualname)
